@@ -6,11 +6,13 @@ Step theorems (one frame, any state) for the unbalanced slave, the balanced stat
 and, for the unbalanced slave, history theorems over every stream of requests with every pattern of repetitions
 (`secU_stream_exactly_once`, `secU_repetitions_invisible`, `secU_repeated_response_identical`; balanced station:
 `bal_stream_exactly_once`): the station refines
-the specification `Iec.Link101.View.stream` (`Lemmas/Link101Hist.lean`, `runStream_refines`).
+the specification `Iec.Link101.View.stream` (`Lemmas/Link101Hist.lean`, `runStream_refines`).  Unbalanced master, every history of one slave
+connection: `master_fcb_discipline` (`Lemmas/Link101Fcb.lean`).
 -/
 import Iec.Model.Link101
 import Iec.Lemmas.Link101Hist
 import Iec.Lemmas.Link101BalHist
+import Iec.Lemmas.Link101Fcb
 namespace Iec.Props.C15
 open Iec.Link101
 
@@ -330,6 +332,33 @@ theorem bal_stream_exactly_once (s : Bal) (rs : List (BReq × Bool × List Bool)
 
 theorem bal_stream_fcb (s : Bal) (rs : List (BReq × Bool × List Bool)) :
     (s.runData rs).1.expectedFcb = (if rs.length % 2 = 0 then s.expectedFcb else !s.expectedFcb) := (bal_runData_spec rs s).2
+
+/-! ### the unbalanced master, every history of one slave connection -/
+
+/-- **frame count bit of the primary, over every history.** Take a slave connection of the CS101 master as
+`LinkLayerPrimaryUnbalanced_addSlaveConnection` creates it and ANY sequence of: state-machine runs at any times, received
+frames of any function code / DFC / ACD in any state (acknowledgements, NACKs, status, data, garbage function codes),
+user data handed over by the application (that fits a frame), poll and link-test requests. Then, among the frames written
+for that slave, in the order they are written: a RESET REMOTE LINK starts a new round; the first frame with FCV = 1 of a
+round carries FCB = 1; every further FCV frame either toggles the bit or is octet for octet the FCV frame before it (a
+retransmission after an acknowledgement time-out) - `trackAll` never reports a violation. -/
+theorem master_fcb_discipline (aL a : Nat) (l : LL) (hl : l.p.addrLen = aL) (ops : List FOp) :
+    ∃ last, trackAll none (FOp.runAll ({ address := a }, l) ops) = some last :=
+  runAll_fcb ops ({ address := a }, l) none (by show J l.p.addrLen _ none; rw [hl]; exact J_init aL a)
+
+/-- the tracker does reject what the property forbids: after a reset a first FCV frame with FCB = 0, and a changed frame
+under an unchanged bit -/
+example : track none (fixedFrame 1 (ctrl 10 true false false true) 5) = none ∧
+    track (some (fixedFrame 1 (ctrl 10 true false true true) 5)) (fixedFrame 1 (ctrl 11 true false true true) 5) = none ∧
+    track (some (fixedFrame 1 (ctrl 10 true false true true) 5)) (fixedFrame 1 (ctrl 11 true false false true) 5) =
+      some (some (fixedFrame 1 (ctrl 11 true false false true) 5)) := by decide
+
+/-- non-vacuity on a concrete history: status request, RESET REMOTE LINK, two polls - the control octets written are
+0x49 (FC 9), 0x40 (FC 0), 0x7a (FC 10, FCV, FCB = 1), 0x5b (FC 11, FCV, FCB = 0) -/
+def fcbDemoLL : LL := { p := ⟨1, 200, 1000, false, 500, by omega⟩, address := 0, buf := [] }
+example : (FOp.runAll ({ address := 5 }, fcbDemoLL) [.run 0, .handle 10 11 false false 5 0 0, .handle 20 0 false false 5 0 0,
+      .run 30, .req1, .run 40, .handle 50 9 false false 5 0 0, .req2, .run 60]).filterMap
+      (fun o => match o with | .tx f => some (ctrlOf f.bytes) | _ => none) = [0x49, 0x40, 0x7a, 0x5b] := by decide
 
 end Iec.Props.C15
 
